@@ -9,6 +9,9 @@ use rand::rngs::SmallRng;
 use rand::SeedableRng as _;
 use std::collections::HashMap;
 use std::net::SocketAddr;
+#[cfg(hotstuff_verif)]
+use crate::simnet::TcpStream;
+#[cfg(not(hotstuff_verif))]
 use tokio::net::TcpStream;
 use tokio::sync::mpsc::{channel, Receiver, Sender};
 use tokio_util::codec::{Framed, LengthDelimitedCodec};
